@@ -191,6 +191,32 @@ func degenerates() []NC {
 				"\u00e9cole": {Constraint: schema.AnyExpression{OfType: cty.String}, IsOptional: true},
 				"foo":   {Constraint: schema.LiteralType{Type: cty.Bool}, IsOptional: true}}}
 		}},
+		// tuples whose later elements cannot be pre-filled, behind one that can
+		{"Tuple{LiteralType{string},Reference{OfType string}}", func() schema.Constraint {
+			return schema.Tuple{Elems: []schema.Constraint{schema.LiteralType{Type: cty.String}, schema.Reference{OfType: cty.String}}}
+		}},
+		{"Tuple{List{LiteralType{string}},TypeDeclaration,LiteralType{bool}}", func() schema.Constraint {
+			return schema.Tuple{Elems: []schema.Constraint{schema.List{Elem: schema.LiteralType{Type: cty.String}}, schema.TypeDeclaration{}, schema.LiteralType{Type: cty.Bool}}}
+		}},
+		{"Map{Tuple{LiteralType{string},Reference{OfType string}}}", func() schema.Constraint {
+			return schema.Map{Elem: schema.Tuple{Elems: []schema.Constraint{schema.LiteralType{Type: cty.String}, schema.Reference{OfType: cty.String}}}}
+		}},
+		{"Object{foo:LiteralType{string},bar:Tuple{LiteralType{string},Reference{OfType string}},baz:LiteralType{number}}", func() schema.Constraint {
+			return schema.Object{Attributes: schema.ObjectAttributes{
+				"foo": {Constraint: schema.LiteralType{Type: cty.String}, IsRequired: true},
+				"bar": {Constraint: schema.Tuple{Elems: []schema.Constraint{schema.LiteralType{Type: cty.String}, schema.Reference{OfType: cty.String}}}, IsRequired: true},
+				"baz": {Constraint: schema.LiteralType{Type: cty.Number}, IsRequired: true}}}
+		}},
+		// collections of "any" inside an object (elements without a hover / completion representation)
+		{"LiteralType{object_map_any}", func() schema.Constraint {
+			return schema.LiteralType{Type: cty.Object(map[string]cty.Type{"name": cty.String, "tags": cty.Map(cty.DynamicPseudoType), "l": cty.List(cty.DynamicPseudoType)})}
+		}},
+		{"Object{foo:Map{LiteralValue{null}},bar:List{LiteralType{dynamic}},baz:Set{LiteralType{dynamic}}}", func() schema.Constraint {
+			return schema.Object{Attributes: schema.ObjectAttributes{
+				"foo": {Constraint: schema.Map{Elem: schema.LiteralValue{Value: cty.NullVal(cty.String)}}, IsOptional: true},
+				"bar": {Constraint: schema.List{Elem: schema.LiteralType{Type: cty.DynamicPseudoType}}, IsOptional: true},
+				"baz": {Constraint: schema.Set{Elem: schema.LiteralType{Type: cty.DynamicPseudoType}}, IsOptional: true}}}
+		}},
 		{"OneOf{OneOf{Any{string}},List{OneOf{LiteralType{bool},Reference{OfType string}}}}", func() schema.Constraint {
 			return schema.OneOf{schema.OneOf{schema.AnyExpression{OfType: cty.String}}, schema.List{Elem: schema.OneOf{schema.LiteralType{Type: cty.Bool}, schema.Reference{OfType: cty.String}}}}
 		}},
